@@ -261,7 +261,7 @@ def scripts_for(emu):
 
     # ---- system-wide bits used by Process methods
     def pids(w, *a):
-        base = [1, 5]
+        base = [p for p in (1, 5) if p != w.pid]
         if w.pid0_listed:
             base.insert(0, 0)
         if w.pid != 0 and w.cur_state() != "gone":
